@@ -214,7 +214,9 @@ func main() {
 		}
 		json.Unmarshal(b, &doc)
 		var rd replayDoc
-		if json.Unmarshal(doc.Replay, &rd) == nil && rd.BaseFee != nil {
+		if cc := txsim.LoadChainReplay(b); cc != nil {
+			txsim.RunChains(ctx, "C08", []*txsim.ChainCase{cc})
+		} else if json.Unmarshal(doc.Replay, &rd) == nil && rd.BaseFee != nil {
 			runBF(ctx, []*BFCase{rd.BaseFee})
 		} else if c := txsim.LoadReplay(ctx.Replay); c != nil {
 			txsim.RunCases(ctx, "C08", []*txsim.Case{c})
@@ -237,7 +239,7 @@ func main() {
 		}
 	}
 	runBF(ctx, bfs)
-	n := ctx.Scale(700, 60000)
+	n := ctx.Scale(2000, 60000)
 	batch := 100
 	for done := 0; done < n; done += batch {
 		var cases []*txsim.Case
@@ -246,7 +248,13 @@ func main() {
 		}
 		txsim.RunCases(ctx, "C08", cases)
 	}
-	ctx.Finish("stream 1: "+txsim.Rule+"; stream 2: parent headers built with block.Builder, fork height in {0,1,5,1000,random,never}, parent number at / before / after the fork, "+
+	rc := r.Fork(77)
+	var chains []*txsim.ChainCase
+	for i := 0; i < ctx.Scale(150, 10000); i++ {
+		chains = append(chains, txsim.GenChain(rc))
+	}
+	txsim.RunChains(ctx, "C08", chains)
+	ctx.Finish("stream 1: "+txsim.Rule+txsim.ChainRule+"; stream 2: parent headers built with block.Builder, fork height in {0,1,5,1000,random,never}, parent number at / before / after the fork, "+
 		"gas limit in {MinGasLimit, around (2^64-1)/75, beyond it, below MinGasLimit, random}, gas used in {0, limit, target, target+-1, over the limit, random}, parent base fee in "+
 		"{floor, floor+small, multiples, 2^60..2^250, below the floor, random}; non-trivial = inside the theorem's domain and gas used != target",
 		append(txsim.Assumptions, "base fee: the 1/8 and floor bounds are claimed for MinGasLimit <= gasLimit <= (2^64-1)/75 (uint64 product gasLimit*75 does not wrap), gasUsed <= gasLimit, parent base fee >= floor; outside it only model = implementation is checked"))
